@@ -24,6 +24,16 @@ func HCLExpressible(m *Model) bool {
 				return false
 			}
 		}
+		for _, i := range t.Indexes {
+			if i.AutoSummarize {
+				return false // no HCL attribute
+			}
+		}
+		for _, c := range t.Columns {
+			if g := c.Generated; g != nil && generatedKind(m.Dialect, g) != map[bool]string{false: "VIRTUAL", true: "STORED"}[g.Stored] {
+				return false // the spelling is a property of DSL graphs
+			}
+		}
 	}
 	return true
 }
